@@ -89,8 +89,10 @@ Definition lifecycle (g : gconf) (outs : list bytes) : list eframe :=
 Definition lifecycles (g : gconf) (runs : list (list bytes)) : list eframe :=
   flat_map (lifecycle g) runs.
 
-(* duplex input: what is fed to the running instance = the contents of the <name>.send frames
-   after its start, once each, in order (the pinned code does not filter by context) *)
+(* duplex input: what is fed to the running instance = the contents of the <name>.send frames of
+   its own context after its start, once each, in order (the context filter is the fix "feed a
+   duplex generator only from its own context") *)
 Definition suffix_send : bytes := [46;115;101;110;100].       (* ".send" *)
 Definition duplex_input (g : gconf) (start_id : N) (stream : list (sframe * bytes)) : list bytes :=
-  map snd (filter (fun p => (start_id <? sf_id (fst p)) && bytes_eqb (sf_topic (fst p)) (g_name g ++ suffix_send)) stream).
+  map snd (filter (fun p => (start_id <? sf_id (fst p)) && (sf_ctx (fst p) =? g_ctx g)
+                            && bytes_eqb (sf_topic (fst p)) (g_name g ++ suffix_send)) stream).
